@@ -115,6 +115,10 @@ var AttrKinds = []struct {
 	{"cond", func(g *Gen, i int) Attr {
 		return CondAttr{Cond: g.ID("b"), Then: []Attr{ExprAttr{Name: fmt.Sprintf("data-t%d", i), ID: g.ID("s")}}}
 	}},
+	{"css-template-class", func(g *Gen, i int) Attr { return CSSClassAttr{Extra: fmt.Sprintf("k%d", i)} }},
+	{"script-template-handler", func(g *Gen, i int) Attr {
+		return ScriptAttr{Name: []string{"onclick", "onmouseover", "onfocus"}[i%3], ID: g.ID("s")}
+	}},
 	{"cond-else", func(g *Gen, i int) Attr {
 		return CondAttr{Cond: g.ID("b"), Then: []Attr{ConstAttr{Name: fmt.Sprintf("data-t%d", i), Raw: "then"}}, HasElse: true, Else: []Attr{BoolConstAttr{Name: fmt.Sprintf("data-f%d", i)}, ExprAttr{Name: fmt.Sprintf("data-g%d", i), ID: g.ID("s")}}}
 	}},
